@@ -188,7 +188,7 @@ def line_eq(c, fails, what, form_name, line, exp, iv=None, vv=None, tol=EPS):
 # witnesses: fn(c) -> list of failure texts
 def gate(c, fails, base, assign, operand, T, step, classify, lo, hi, guess=None, what='threshold'):
     """outcome classes at operand == T and operand == T + step must be lo and hi"""
-    r1, a1 = c.tune(base, assign, operand, T, guess=guess if guess is not None else None)
+    r1, a1 = c.tune(base, assign, operand, T, guess=guess)
     k1 = classify(r1)
     a2 = dict(a1)
     a2['w-2:0.box_1'] = money(float(a1['w-2:0.box_1']) + step)
@@ -588,12 +588,9 @@ def w_eic(n):
 def w_eic_investment(c):
     fails = []
     T = float(c.off)
-    mk = lambda x: c.solve(B0, c.st(**{'w-2:0__box_1': '3000', '1040__number_1099-int': '1', '1099-int:0__payer': 'Bank',
-                                      '1099-int:0__box_1': money(x)}))
-    if c.variant:
-        raise_for = A.value(c.year, 'eic_agi_limit_0', c.status)
-        if T + 3000 + 9000 >= raise_for:
-            raise Skip('second base: pension income pushes AGI over the EIC limit for no children')
+    # one dependent, so that AGI (wages 3,000 + the interest, + 9,000 pension on the second base) stays under the AGI limit
+    mk = lambda x: c.solve(B0, c.st(**dict(_eic_assign(c, 1), **{'w-2:0__box_1': '3000', '1040__number_1099-int': '1',
+                                                                 '1099-int:0__payer': 'Bank', '1099-int:0__box_1': money(x)})))
     r1, r2 = mk(T), mk(T + 0.01)
     if EIC(c) not in r1.unimpl:
         fails.append(f'investment income exactly ${T:,.0f}: {describe(r1)}, expected line 27 (EIC) not implemented')
@@ -695,12 +692,16 @@ def w_rrc_end(c):
 
 
 def w_rrc_divisor(c):
+    """line 11 = line 10 / divisor is kept as a two-place decimal, so the divisor is observable only through
+    roundings: probes just under / over the .985 and .505 rounding edges resolve it to about 0.1%"""
     fails = []
     end = float(A.value(c.year, 'rrc_phaseout_end', c.status))
-    agi = end - float(c.off) / 2.0
-    r, a = c.tune(B0, _rrc_assign(c), op('1040.11'), agi, guess=agi)
-    need_solved(r, fails)
-    eq(fails, f'worksheet line 11 at AGI {agi:g} (half way through the official phase-out)', val(r, f'{RRC}.11'), 0.5)
+    d = float(c.off)
+    for frac, exp in ((0.5, 0.5), (0.984, 0.98), (0.986, 0.99), (0.504, 0.5), (0.506, 0.51)):
+        agi = round(end - d * frac, 2)
+        r, a = c.tune(B0, _rrc_assign(c), op('1040.11'), agi, guess=agi)
+        need_solved(r, fails)
+        eq(fails, f'worksheet line 11 at AGI {agi:g} (line 10 = {frac} of the official divisor {d:g})', val(r, f'{RRC}.11'), exp)
     return fails
 
 
@@ -777,7 +778,6 @@ def w_nc_std(c):
 def w_nc_child(c):
     fails = []
     table = c.off
-    prev_amt = None
     for i, (bound, amt) in enumerate(table):
         nxt = table[i + 1][1] if i + 1 < len(table) else 0
         for agi, exp in ((bound, amt), (bound + 1, nxt)):
@@ -935,6 +935,11 @@ WITNESS = {
     'nc_use_tax_rate': ('line', w_nc_use_rate),
     'nc_underpayment_floor': ('line', w_nc_underpayment),
 }
+
+SAMPLES = {(2023, 'HeadOfHousehold', 'standard_deduction'), (2022, 'MarriedFilingJointly', 'qbi_threshold'),
+           (2021, 'QualifyingWidowWidower', 'eic_agi_limit_2'), (2023, 'MarriedFilingSeparately', 'amt_28pct_breakpoint'),
+           (2022, 'Single', 'nc_tax_rate'), (2021, 'HeadOfHousehold', 'ctc2021_ws_line6'),
+           (2023, 'QualifyingSurvivingSpouse', 'nc_child_deduction_table'), (2022, 'HeadOfHousehold', 'saver_credit_agi_limit')}
 
 # table entries deliberately left out of the claimed set: (year or None, name) -> reason
 UNCORROBORATED = {}
@@ -1145,7 +1150,7 @@ def run(tier):
                     unwitnessed[f'{y}|{n}|{stt}'] = 'no witness written for this amount'
     items = [it for it in work_items(tier) if it[1] in WITNESS]
     res = runner.pmap(_work, items, chunksize=2)
-    claimed, per_year, kinds, sampled = set(), {}, {}, set()
+    claimed, per_year, kinds = set(), {}, {}
     for o in res:
         year, name, status = o['year'], o['name'], o['status']
         run.evaluations += o['nret'] + o['nline']
@@ -1167,12 +1172,9 @@ def run(tier):
         if o['fails']:
             run.violation(f'C08|{year}|{name}|{status}', dict(year=year, name=name, status=status, variant=o['variant']),
                           f'{name} for {status} {year}, official {_show(A.value(year, name, status))}: ' + ' ;; '.join(o['fails'][:4]))
-        elif o['kind'] != 'line' and name not in sampled and (len(sampled) + year) % 3 == 0:
-            sampled.add(name)
+        elif (year, status, name) in SAMPLES:
             run.sample(dict(year=year, status=status, name=name, kind=o['kind'], official=_show(A.value(year, name, status)),
-                            returns_solved=o['nret']), cap=8)
-        else:
-            sampled.add(name) if o['kind'] == 'line' else None
+                            returns_solved=o['nret'], line_definitions_evaluated=o['nline']), cap=8)
     for (y, n), why in UNCORROBORATED.items():
         for yy in (A.YEARS if y is None else (y,)):
             if n in A.AMOUNTS[yy]:
